@@ -1,6 +1,6 @@
 (* C12 — property theorems. This file contains nothing but the statements, each closed by
    `exact <lemma>` from Proofs.v, with Print Assumptions beneath, and the non-vacuity examples. *)
-From C12 Require Import Model Proofs Lexer ProofsLexer.
+From C12 Require Import Model Proofs Lexer ProofsLexer Legacy ProofsLegacy.
 
 (* The rewriting that moves NOT operators (De Morgan / NAND fusion) does not change the selected
    set, and leaves NOT at most at the root — for every tree the parsers can build, every valuation. *)
@@ -189,4 +189,59 @@ Example C12_lex_nonvacuous :
   (* k:[*, 'Bob'] : the bounds are the wildcard symbol and the folded text bob *)
   /\ (do l <- lex ex_space ex_letter ex_digit [107; 58; 91; 42; 44; 32; 39; 66; 111; 98; 39; 93]%N;
       range_view ex_letter ex_digit ex_lower false l) = ROk (TmSym, TmText [98; 111; 98]%N).
+Proof. vm_compute. repeat split. Qed.
+
+(* ---------------------------------------------------------------------------------------------
+   Stage 3: the LEGACY parser (ParseQuery) and ParseAggregationFilter on RAW BYTES.
+   Legacy.v models []rune(data) (utf8 decoding, U+FFFD for invalid bytes), the tokenParser with its
+   rune slice and index (every tp.data[tp.pos] is a checked read, every tp.data[a:b] a checked
+   slice, tokens[0] of buildAndTree a checked head, the two explicit panic(..) calls are RPanic),
+   skipSpaces / parseSimpleTerm / parseTerms / parseQuotedTerms / parseRangeTerm / parseRange /
+   parseLiteral / parseTokenQuery, errorUnexpectedSymbol (which reads tp.cur()), the three term
+   builders, parseSubexpr / parseExpr with the depth counter, buildAst + propagateNot, and
+   ParseAggregationFilter. Oracles: unicode.IsSpace / IsLetter / IsNumber, unicode.ToLower,
+   conf.CaseSensitive and the field mapping - ANY functions, no hypothesis on them. *)
+
+(* For ALL byte strings, ALL class oracles, ToLower functions, case modes and field mappings the
+   legacy parser returns a query (with its leaf table) or an error: no checked read / slice / head
+   is out of range, no explicit panic is reached, and the fuel - by definition of legacy_parse
+   2 * (number of runes) + 3 for parseSubexpr/parseExpr and (remaining runes) + 1 for every inner
+   loop - is never exhausted (every successful parseSubexpr consumes at least one rune, every
+   iteration of parseExpr's loop an operator and an operand, every inner loop iteration a rune).
+   Recursion depth: parseSubexpr recurses once per `(` and per `not`; the code has NO depth limit
+   (the depth parameter only decides whether `)` ends the expression), so the depth is bounded by
+   the number of runes only. Go's 1 GB goroutine stack is outside the model: see the manifest. *)
+Theorem C12_legacy_lex_total :
+  forall (is_space is_letter is_number : N -> bool) (to_lower : N -> N) (case_sensitive : bool)
+         (ftype : bytes -> N) (q : bytes),
+    legacy_parse is_space is_letter is_number to_lower case_sensitive ftype q = RErr \/
+    exists a, legacy_parse is_space is_letter is_number to_lower case_sensitive ftype q = ROk a.
+Proof. exact legacy_parse_total. Qed.
+Print Assumptions C12_legacy_lex_total.
+
+(* The same for ParseAggregationFilter: a Literal, (nil, nil) for an empty filter, or an error. *)
+Theorem C12_aggfilter_total :
+  forall (is_space is_letter is_number : N -> bool) (to_lower : N -> N) (case_sensitive : bool)
+         (q : bytes),
+    legacy_agg is_space is_letter is_number to_lower case_sensitive q = RErr \/
+    exists a, legacy_agg is_space is_letter is_number to_lower case_sensitive q = ROk a.
+Proof. exact legacy_agg_total. Qed.
+Print Assumptions C12_aggfilter_total.
+
+(* non-vacuity (ASCII oracles, k = keyword, t = text):
+   k:<dq>A b<dq> and not t:x\ y or (k:[a TO *])   (<dq> = double quote) parses to four leaves (the folded literal a b, the two
+   words of the text field, the range) under OR(NAND(AND(1,2),0),3);
+   k:<dq>a\   (quote and escape unterminated) is an error, not a panic;
+   the aggregation filter k:a*B is the literal a, *, b *)
+Definition ex_q1 : bytes :=
+  [107;58;34;65;32;98;34;32;97;110;100;32;110;111;116;32;116;58;120;92;32;121;32;111;114;32;40;
+   107;58;91;97;32;84;79;32;42;93;41]%N.
+Example C12_legacy_nonvacuous :
+  legacy_parse ex_space ex_letter ex_digit ex_lower false ex_ftype ex_q1
+  = ROk (OrN (NAndN (AndN (Leaf 1) (Leaf 2)) (Leaf 0)) (Leaf 3),
+         [LLit [107%N] [TmText [97%N; 32%N; 98%N]]; LLit [116%N] [TmText [120%N]];
+          LLit [116%N] [TmText [121%N]]; LRng [107%N] (TmText [97%N]) TmSym true true])
+  /\ legacy_parse ex_space ex_letter ex_digit ex_lower false ex_ftype [107;58;34;97;92]%N = RErr
+  /\ legacy_agg ex_space ex_letter ex_digit ex_lower false [107;58;97;42;66]%N
+     = ROk (Some (LLit [107%N] [TmText [97%N]; TmSym; TmText [98%N]])).
 Proof. vm_compute. repeat split. Qed.
